@@ -200,7 +200,7 @@ func gen(r *vh.Rand) string {
 		return genReload(r)
 	}
 	// histories through rule files and the real reload entry points cost a temp dir each: mostly thorough tier
-	if (vh.Thorough && r.Chance(1, 4)) || (!vh.Thorough && r.Chance(1, 12)) {
+	if (vh.Thorough && r.Chance(1, 4)) || (!vh.Thorough && r.Chance(1, 25)) {
 		return genHist(r)
 	}
 	switch r.Intn(10) {
